@@ -18,6 +18,7 @@ Recognised expressions E:
                               overloaded operator whose result type is Eigen::CwiseBinaryOp<scalar_{sum,difference,product,
                               quotient}_op<double, double>, ..>  (the functor is checked against the operator)
     -E                        Eigen::CwiseUnaryOp<scalar_opposite_op<double>, ..>
+    E * s, s * E, E + s ...   (only with hook(scalars=True)) an operand of C++ type double: Eigen's broadcast constant
     (E), E.array(), E.matrix(), E.transpose()
                               coefficient-preserving adaptors (transpose only on a 1-D operand of rowwise())
     A * v   (Eigen::Product)  A a 2-D view leaf, v a 1-D view leaf: coefficient r is (row r of A) . v, delegated to the
@@ -50,7 +51,11 @@ def _callee(n):
     return unwrap(n['inner'][0]).get('referencedDecl', {}).get('name')
 
 
-def hook(view1, view2=None, matvec=None):
+def hook(view1, view2=None, matvec=None, dest=(), scalars=False):
+    """dest: further regexes on the (cv-stripped) C++ type of a destination this hook owns (default: ArrayWrapper /
+    VectorwiseOp only), e.g. r'^Eigen::Map<Eigen::Matrix<double, -1, 1' for `tensor.vector(i) += ...`;
+    scalars=True: an operand of C++ type double of a coefficient-wise binary operator is Eigen's broadcast constant
+    (`array * 2.0`, result type CwiseBinaryOp<op, .., CwiseNullaryOp<scalar_constant_op<double>, ..>>)"""
     def ctype_or_none(P, n):
         try:
             return P.ctype(n['type'])
@@ -65,6 +70,7 @@ def hook(view1, view2=None, matvec=None):
     class Ctx:
         def __init__(self, P, p):
             self.P, self.p, self.pre, self.checks, self.k = P, p, '', '', 0
+            self.in_binary = False      # inside an operand of a coefficient-wise binary operator (scalars=True)
             P.tmp += 1
             self.tag = f'nv_cw{P.tmp}'
 
@@ -95,6 +101,9 @@ def hook(view1, view2=None, matvec=None):
             return f'(*{v}.g)'
         k = u.get('kind')
         t = strip_cv(qual(u.get('type')))
+        if scalars and c == 'double' and cx.in_binary:
+            P.note('eigencw: scalar operand broadcast over the coefficients')
+            return cx.bind('double', P.expr(u))
         if k == 'CXXOperatorCallExpr':
             name = _callee(u)
             args = u['inner'][1:]
@@ -114,7 +123,10 @@ def hook(view1, view2=None, matvec=None):
                     return f'{matvec}({va}, {vb})'
                 if not re.match(r'Eigen::CwiseBinaryOp<Eigen::internal::' + functor + r'<double(, double)?>,', t):
                     raise Unsupported(f'eigencw: {name} with result type {t[:90]}')
-                return arith(P, op, kernel(cx, args[0], n_expr, k_expr, d2), kernel(cx, args[1], n_expr, k_expr, d2))
+                outer, cx.in_binary = cx.in_binary, True
+                a, b = kernel(cx, args[0], n_expr, k_expr, d2), kernel(cx, args[1], n_expr, k_expr, d2)
+                cx.in_binary = outer
+                return arith(P, op, a, b)
             if name == 'operator-' and len(args) == 1:
                 if not re.match(r'Eigen::CwiseUnaryOp<Eigen::internal::scalar_opposite_op<double>,', t):
                     raise Unsupported(f'eigencw: unary minus with result type {t[:90]}')
@@ -138,7 +150,7 @@ def hook(view1, view2=None, matvec=None):
             return None
         dst, rhs = u['inner'][1], u['inner'][2]
         dt = strip_cv(qual(_strip(dst).get('type')))
-        if not (dt.startswith('Eigen::ArrayWrapper<') or dt.startswith('Eigen::VectorwiseOp<')):
+        if not (dt.startswith('Eigen::ArrayWrapper<') or dt.startswith('Eigen::VectorwiseOp<') or any(re.search(rx, dt) for rx in dest)):
             return None
         # from here on the statement is ours: anything unrecognised is an extraction break
         p = '  ' * ind
